@@ -228,6 +228,11 @@ func parDiff(out *prog.Outcome, val interface{}, err error, trace []string) stri
 	return ""
 }
 
+// parHang: a judged program that does not end was reported in this process; parLate counts the later
+// cases that did not end within 3 s either (the policy of prog.Judge for the same situation).
+var parHang bool
+var parLate int
+
 func oraclePar(c ParCase, o *h.Obs) *h.Fail {
 	srcs := make([]string, len(c.Judged))
 	outs := make([]*prog.Outcome, len(c.Judged))
@@ -251,7 +256,17 @@ func oraclePar(c ParCase, o *h.Obs) *h.Fail {
 			o.NonTrivial = true
 		}
 	}
-	ctx, cancel := context.WithTimeout(context.Background(), 60*time.Second)
+	// every judged program ends within the model's step budget (a few hundred thousand steps, well under a
+	// second of interpreter time): 20 s for the parallel run; once a hang has been reported, 3 s
+	limit := 20 * time.Second
+	if parHang {
+		if parLate > 5 {
+			o.Excluded = "not run: a hang was reported in this process and more than 5 later cases did not end either"
+			return nil
+		}
+		limit = 3 * time.Second
+	}
+	ctx, cancel := context.WithTimeout(context.Background(), limit)
 	defer cancel()
 	start := make(chan struct{})
 	var dwg, jwg sync.WaitGroup
@@ -290,8 +305,27 @@ func oraclePar(c ParCase, o *h.Obs) *h.Fail {
 	timedOut := ctx.Err() != nil
 	cancel()
 	dwg.Wait()
+	if timedOut && parHang {
+		parLate++
+		o.Excluded = "did not end within 3 s (a hang was already reported in this process)"
+		return nil
+	}
 	if timedOut {
-		o.Excluded = "resource: the parallel run did not finish within 60 s"
+		// which judged program does not end? Each one once more, alone, with 30 s
+		for i := range c.Judged {
+			if got[i].err == nil || !strings.Contains(got[i].err.Error(), "interrupt") {
+				continue
+			}
+			host := prog.NewHost()
+			_, _, still := host.ExecTimeout(srcs[i], 30*time.Second)
+			if still {
+				parHang = true
+				f := h.Failf("C08|no-termination", "program:\n%s\nthe model finishes this program within %d steps; anko was still running it after 20 s next to other scripts and after 30 s alone", srcs[i], outs[i].Steps)
+				f.NoShrink = true
+				return f
+			}
+		}
+		o.Excluded = "resource: the parallel run did not finish within 20 s, every judged program ends when it runs alone"
 		return nil
 	}
 	for i := range ended {
